@@ -143,8 +143,22 @@ def run(ctx):
     for name, sty in (("winansi_encode_char", "u32"), ("winansi_decode_char", "u8"), ("macroman_encode_char", "u32")):
         f = ctx.fn(M + name, "anchor")
         ms = [m for m in facts.matches.get(f.id, []) if m["sty"] == sty]
+        if not ms and sty == "u32":
+            # R6: an encode table keyed by a *narrowed* code point (`ch as u16` / `as u8`): characters above the key's range
+            # are folded onto the repertoire (U+200A2 -> 0xA2) instead of being reported as unencodable
+            narrow = [m for m in facts.matches.get(f.id, []) if m["sty"] in ("u16", "u8", "i16", "i8")]
+            if narrow:
+                ctx.violation("R6", "%s:table-keyed-by-full-code-point" % name, "%s looks its character up in a table keyed by `%s`: the "
+                              "cast from `char` drops the high bits, so a supplementary-plane character whose low bits fall in the "
+                              "repertoire (U+200A2, U+10041) is encoded as a different character instead of being rejected — strict "
+                              "encoding no longer reports unencodable text" % (name, narrow[0]["sty"]),
+                              "%s:%d" % (narrow[0]["file"], narrow[0]["line"]))
+                helpers[name] = narrow[0]
+                continue
         if ctx.floor("anchor", "table match in " + name, len(ms), 1):
             helpers[name] = ms[0]
+            if sty == "u32":
+                ctx.ok("R6", "%s:table-keyed-by-full-code-point" % name, "match on `char as u32`", f.where())
     ctx.floor("anchor", "inline encode tables (WinAnsi, MacRoman)", len([k for k in enc_inline if k in ("WinAnsiEncoding", "MacRomanEncoding")]), 2)
     ctx.floor("anchor", "inline decode tables (WinAnsi, MacRoman)", len([k for k in dec_inline if k in ("WinAnsiEncoding", "MacRomanEncoding")]), 2)
 
